@@ -21,7 +21,7 @@ class Gen:
     def __init__(self, rng, long=False):
         self.rng = rng
         self.sch = cc.schema(rng, depth=rng.choice([2, 3, 3]), width=rng.choice([2, 3, 4]),
-                             kinds="nbis", p_section=0.5)
+                             kinds=rng.choice(["nbis", "nbislt", "nbislt"]), p_section=0.5)
         if not any(isinstance(v, dict) for v in self.sch.values()):
             self.sch[rng.choice(["s", "t"])] = {"x": "i", "y": "s"}
         self.handles = {}      # id -> absolute path (alive, in scope)
@@ -39,8 +39,8 @@ class Gen:
             t = t[k]
         return t
 
-    def inst(self, p_keep=None):
-        return gt.jsonable(cc.instance(self.rng, self.sch, p_keep or self.rng.choice([0.4, 0.7, 0.9])))
+    def inst(self, p_keep=None, kinds=None):
+        return gt.jsonable(cc.instance(self.rng, self.sch, p_keep or self.rng.choice([0.4, 0.7, 0.9]), kinds))
 
     def kill(self, p, dict_write=False):
         """handles at or below a deleted/overwritten path leave the scope; a dict
@@ -64,7 +64,7 @@ class Gen:
             sub = cc.schema(rng, depth=rng.choice([1, 2]), width=2, kinds="nbis")
             par[k] = sub
             return gt.jsonable(cc.instance(rng, sub, 0.8)), True
-        par[k] = rng.choice("nbis")
+        par[k] = rng.choice("nbislt")
         return gt.leaf(rng, par[k]), False
 
     def pick_key(self, kp, want_leaf=None, p_fresh=0.15):
@@ -90,8 +90,53 @@ class Gen:
         kp = list(abs_kp[len(base):])
         fl = rng.choice(["item", "attr"])
         kind = rng.choices(
-            ["set", "del", "pop", "popitem", "clear", "setdefault", "update", "get", "contains", "len", "keys"],
-            [24, 13, 8, 3, 3, 6, 5, 8, 3, 2, 2])[0]
+            ["set", "del", "pop", "popitem", "clear", "setdefault", "update", "get", "contains", "len", "keys",
+             "getm", "view", "eq", "update_both", "update_proxy", "rawset"],
+            [24, 13, 8, 3, 3, 6, 5, 6, 3, 2, 3, 6, 4, 2, 0.7, 0.5, 0.8])[0]
+        if kind == "getm":
+            k = self.pick_key(abs_kp, p_fresh=0.3)
+            d = None if rng.random() < 0.5 else {"d": gt.leaf(rng, "isn")}
+            return ["getm", fl, kp, k, d]
+        if kind == "view":
+            return ["view", fl, kp, rng.choice(["items", "values", "dict"])]
+        if kind == "eq":
+            return ["eq", fl, kp, rng.random() < 0.5]
+        if kind == "update_both":
+            def some(n):
+                out = []
+                for _ in range(n):
+                    k = self.pick_key(abs_kp, want_leaf=True, p_fresh=0.3)
+                    if k in [x[0] for x in out]:
+                        continue
+                    v, isd = self.value_for(abs_kp, k)
+                    if not isd:
+                        out.append([k, v])
+                return out
+            return ["update_both", fl, kp, some(rng.randint(1, 2)), some(rng.randint(0, 2))]
+        if kind == "update_proxy":
+            # c.<kp>.update(c.<src>): iterating the proxy yields KEYS; key s writes s[0] := s[1]
+            srcs = [p for p in self.sections() if p and tuple(p) != tuple(abs_kp)]
+            rng.shuffle(srcs)
+            tgt = self.node(abs_kp)
+            for sp in srcs:
+                ks = [k for k in self.node(sp) if len(k) >= 2]
+                if all(not isinstance(tgt.get(k[0]), dict) for k in ks):
+                    for k in ks:
+                        tgt[k[0]] = "s"
+                    if base:
+                        return self.path_op(base)
+                    return ["update_proxy", fl, kp, list(sp)]
+            kind = "get"
+        if kind == "rawset":
+            secs2 = [p for p in secs if len(p) > len(base)]
+            if secs2:
+                P = rng.choice(secs2)
+                k = self.pick_key(P, want_leaf=True, p_fresh=0.4)
+                v, isd = self.value_for(P, k)
+                if not isd:
+                    return ["rawset", fl, list(P[len(base):-1]), P[-1], k, v,
+                            rng.choice(["get", "get", "setdefault"])]
+            kind = "get"
         if kind == "set":
             k = self.pick_key(abs_kp, want_leaf=(True if rng.random() < 0.9 else None))
             v, isd = self.value_for(abs_kp, k)
@@ -107,7 +152,7 @@ class Gen:
             self.kill(abs_kp + (k,))
             if k not in self.node(abs_kp):      # later reloads may define the key popped in vain
                 self.node(abs_kp)[k] = rng.choice("is")
-            d = None if rng.random() < 0.4 else {"d": gt.leaf(rng, "is")}
+            d = None if rng.random() < 0.4 else {"d": gt.leaf(rng, "isn")}      # pop(k, None) too
             return ["pop", fl, kp, k, d]
         if kind == "popitem":
             for k in list(self.node(abs_kp)):
@@ -145,6 +190,8 @@ class Gen:
             return ["get", fl, kp, self.pick_key(abs_kp, p_fresh=0.15)]
         if kind == "contains":
             return ["contains", fl, kp, self.pick_key(abs_kp, p_fresh=0.3)]
+        if kind == "keys":
+            return ["keys", fl, kp, rng.choice(["keys", "iter"])]
         return [kind, fl, kp]
 
     def reload(self):
@@ -163,23 +210,37 @@ class Gen:
         fs = []
         for loc in ("sys", "usr"):
             if rng.random() < 0.5:
-                fs.append([loc, rng.choice(cc.SUFFIXES), {"data": self.inst()}])
+                fs.append([loc, rng.choice(cc.SUFFIXES), {"data": self.inst(kinds="nbisl")}])
         init = {"defaults": self.inst(0.9), "overrides": self.inst(0.2) if rng.random() < 0.4 else None,
                 "proj": None, "rt": None, "lazy": False}
         ops = []
         if rng.random() < 0.25:
-            fs.append(["projA", rng.choice(cc.SUFFIXES), {"data": self.inst()}])
+            fs.append(["projA", rng.choice(cc.SUFFIXES), {"data": self.inst(kinds="nbisl")}])
             init["proj"] = "projA"
             ops.append(["load_project"])
         if rng.random() < 0.2:
             sfx = rng.choice(cc.SUFFIXES)
-            fs.append(["rtA", sfx, {"data": self.inst(0.3)}])
+            fs.append(["rtA", sfx, {"data": self.inst(0.3, kinds="nbisl")}])
             init["rt"] = ["rtA", sfx]
             ops.append(["load_runtime"])
         if rng.random() < 0.3:
             ops.append(["load_collection", self.inst()])
         n = rng.randint(1, 8) if not self.long else rng.randint(6, 25)
         hold_rate = rng.choice([0.0, 0.12, 0.2])
+        if rng.random() < 0.03:
+            # the F-C06b corner on purpose: a proxy held across the deletion of a
+            # section it then writes through
+            nested = [p for p in self.sections() if len(p) >= 2]
+            if nested:
+                q = rng.choice(nested)
+                k = self.pick_key(q, want_leaf=True, p_fresh=0.5)
+                v, isd = self.value_for(q, k)
+                if not isd:
+                    ops += [["hold", 90, "item", list(q[:-1])],
+                            ["set", "item", [], self.pick_key((), want_leaf=True, p_fresh=1.0), 1],
+                            ["del", "item", list(q[:-1]), q[-1]],
+                            ["via", 90, ["set", "item", [q[-1]], k, v]]]
+                    return {"fs": fs, "init": init, "ops": ops}
         while len(ops) < n + 3:
             r = rng.random()
             secs = [p for p in self.sections() if p]
@@ -245,138 +306,202 @@ def base_of(case, loads, env):
     return out
 
 
+def diff_paths(a, b, pre=()):
+    """minimal paths at which two trees differ"""
+    if isinstance(a, dict) and isinstance(b, dict):
+        out = []
+        for k in list(a) + [k for k in b if k not in a]:
+            if k not in a or k not in b:
+                out.append(pre + (k,))
+            else:
+                out.extend(diff_paths(a[k], b[k], pre + (k,)))
+        return out
+    return [] if (a == b and type(a) is type(b)) else [pre]
+
+
+def expect(root, op, out):
+    """what a nested dict rooted at ``root`` answers to the path operation ``op``
+    (absolute key path), and the edits it performs: (want, events)"""
+    name, fl, kp = op[0], op[1], op[2]
+    miss = {"err": "KeyError" if fl == "item" else "AttributeError"}
+    d = root
+    for k in kp:
+        if isinstance(d, dict) and k in d and isinstance(d[k], dict):
+            d = d[k]
+        else:
+            return miss, []
+    J = gt.jsonable
+    if name == "get":
+        return ({"val": J(d[op[3]])} if op[3] in d else miss), []
+    if name == "set":
+        return {"none": 1}, [("set", kp + [op[3]], gt.unjson(op[4]))]
+    if name == "del":
+        return ({"none": 1}, [("del", kp + [op[3]])]) if op[3] in d else (miss, [])
+    if name == "pop":
+        if op[3] in d:
+            return {"val": J(d[op[3]])}, [("del", kp + [op[3]])]
+        return ({"val": op[4]["d"]} if op[4] is not None else {"err": "KeyError"}), []
+    if name == "popitem":
+        if not d:
+            return {"err": "KeyError"}, []
+        if "pair" in out and out["pair"][0] in d:
+            return {"pair": [out["pair"][0], J(d[out["pair"][0]])]}, [("del", kp + [out["pair"][0]])]
+        return {"err": "?"}, []
+    if name == "clear":
+        return {"none": 1}, [("del", kp + [k]) for k in list(d)]
+    if name == "setdefault":
+        if op[3] in d:
+            return {"val": J(d[op[3]])}, []
+        dv = None if op[4] is None else gt.unjson(op[4]["d"])
+        return {"val": J(dv)}, [("set", kp + [op[3]], dv)]
+    if name == "update":
+        return {"none": 1}, [("set", kp + [k], gt.unjson(v)) for k, v in op[3]]
+    if name == "update_both":
+        return {"none": 1}, [("set", kp + [k], gt.unjson(v)) for k, v in list(op[3]) + list(op[4])]
+    if name == "update_proxy":
+        sd = root
+        for k in op[3]:
+            if isinstance(sd, dict) and k in sd and isinstance(sd[k], dict):
+                sd = sd[k]
+            else:
+                return miss, []
+        return {"none": 1}, [("set", kp + [k], copy.deepcopy(v)) for k, v in sd.items()]
+    if name == "rawset":
+        if isinstance(d.get(op[3]), dict):
+            return {"none": 1}, [("set", kp + [op[3], op[4]], gt.unjson(op[5]))]
+        return {"err": "TypeError"}, []
+    if name == "contains":
+        return {"bool": op[3] in d}, []
+    if name == "len":
+        return {"nat": len(d)}, []
+    if name == "keys":
+        return {"keys": list(d)}, []
+    if name == "view":
+        return {"val": J(d)}, []
+    if name == "eq":
+        return {"bool": bool(op[3])}, []
+    if name == "getm":
+        if op[3] in d:
+            return {"val": J(d[op[3]])}, []
+        return {"val": None if op[4] is None else op[4]["d"]}, []
+    return {"none": 1}, []
+
+
+def same_out(out, want):
+    if "keys" in out and "keys" in want:
+        return sorted(out["keys"]) == sorted(want["keys"])
+    return out == want
+
+
+def apply_events(root, evs):
+    for e in evs:
+        if e[0] == "set":
+            set_path(root, e[1], e[2])
+        else:
+            del_path(root, e[1])
+
+
 def diagnose(case, obs):
-    """(index of the first step the reference disagrees at, what, info) or None"""
-    if "err" in obs.get("view0", {}) if isinstance(obs.get("view0"), dict) else False:
-        return None
+    """First step at which the nested-dict reference disagrees with what was
+    observed: (index, "outcome"|"view"|..., info) or None.  ``info`` carries what
+    the attribution of known mechanisms needs: the paths at which the views
+    differ, what the held proxy's own snapshot would have answered, the dict
+    writes and raw-dict writes so far."""
     journal, loads, env = [], [], {}
-    handles = {}
+    handles = {}          # h -> (generation, path)
+    gen, snaps = 0, {}    # cache generations that some held proxy points into
     st = base_of(case, loads, env)
-    dict_writes = []      # (abs path, value) of dict-valued writes so far
-    merges_since = {}     # handle -> number of re-merges since it was fetched
-    for i, (op, step) in enumerate(zip(case["ops"], obs["trace"])):
+    dict_writes, raw_writes, lost_writes = [], [], []
+
+    def remerged():
+        nonlocal gen
+        gen += 1
+    for i, (op0, step) in enumerate(zip(case["ops"], obs["trace"])):
         out, view = step["out"], gt.unjson(step["view"])
-        via = None
+        op, via = op0, None
         if op[0] == "hold":
-            try:
-                t = st
-                for k in op[3]:
-                    t = t[k]
-                    if not isinstance(t, dict):
-                        raise KeyError(k)
-                handles[op[1]] = list(op[3])
-                merges_since[op[1]] = 0
-                want = {"none": 1}
-            except (KeyError, TypeError):
-                want = {"err": "KeyError" if op[2] == "item" else "AttributeError"}
+            want, _ = expect(st, ["len", op[2], list(op[3])], out)
+            want = {"none": 1} if "nat" in want else want
+            if "none" in want:
+                handles[op[1]] = (gen, list(op[3]))
+                snaps.setdefault(gen, copy.deepcopy(st))
             if out != want or view != st:
-                return i, "hold", {}
+                return i, "hold", {"op": op}
             continue
         if op[0] == "via":
             if op[1] not in handles:
                 continue
             via = op[1]
+            g, hp = handles[via]
             o = list(op[2])
-            o[2] = handles[op[1]] + list(o[2])
+            o[2] = hp + list(o[2])
             op = o
         name = op[0]
         if name in cc.PATH_OPS:
-            fl, kp = op[1], op[2]
-            miss = {"err": "KeyError" if fl == "item" else "AttributeError"}
-            d = st
-            ok = True
-            for k in kp:
-                if isinstance(d, dict) and k in d and isinstance(d[k], dict):
-                    d = d[k]
-                else:
-                    ok = False
-                    break
-            evs = []
-            if not ok:
-                want = miss
-            elif name == "get":
-                want = {"val": gt.jsonable(d[op[3]])} if op[3] in d else miss
-            elif name == "set":
-                want, evs = {"none": 1}, [("set", kp + [op[3]], gt.unjson(op[4]))]
-            elif name == "del":
-                want, evs = ({"none": 1}, [("del", kp + [op[3]])]) if op[3] in d else (miss, [])
-            elif name == "pop":
-                if op[3] in d:
-                    want, evs = {"val": gt.jsonable(d[op[3]])}, [("del", kp + [op[3]])]
-                elif op[4] is not None:
-                    want = {"val": op[4]["d"]}
-                else:
-                    want = {"err": "KeyError"}
-            elif name == "popitem":
-                if not d:
-                    want = {"err": "KeyError"}
-                elif "pair" in out and out["pair"][0] in d:
-                    want, evs = {"pair": [out["pair"][0], gt.jsonable(d[out["pair"][0]])]}, \
-                        [("del", kp + [out["pair"][0]])]
-                else:
-                    want = {"err": "?"}
-            elif name == "clear":
-                want, evs = {"none": 1}, [("del", kp + [k]) for k in list(d)]
-            elif name == "setdefault":
-                if op[3] in d:
-                    want = {"val": gt.jsonable(d[op[3]])}
-                else:
-                    dv = None if op[4] is None else gt.unjson(op[4]["d"])
-                    want, evs = {"val": gt.jsonable(dv)}, [("set", kp + [op[3]], dv)]
-            elif name == "update":
-                want, evs = {"none": 1}, [("set", kp + [k], gt.unjson(v)) for k, v in op[3]]
-            elif name == "contains":
-                want = {"bool": op[3] in d}
-            elif name == "len":
-                want = {"nat": len(d)}
-            else:
-                want = {"keys": list(d)}
+            want, evs = expect(st, op, out)
+            info = {"op": op, "via": via}
+            if via is not None:
+                g = handles[via][0]
+                info["stale"] = g != gen
+                if g in snaps:
+                    info["snap"] = expect(snaps[g], op, out)
+            # the edit lands in the nested dict ...
+            apply_events(st, evs)
             for e in evs:
-                if e[0] == "set":
-                    set_path(st, e[1], e[2])
-                    if isinstance(e[2], dict):
-                        dict_writes.append((e[1], e[2]))
-                else:
-                    del_path(st, e[1])
                 journal.append(e)
-                for h, hp in list(handles.items()):
+                if e[0] == "set" and isinstance(e[2], dict):
+                    dict_writes.append((e[1], e[2]))
+            if name == "rawset" and evs:
+                raw_writes.append(evs[0][1])
+            if name == "update_both" and evs and op[4]:
+                lost_writes.extend(list(op[2]) + [k] for k, _ in op[3] if k not in [x[0] for x in op[4]])
+            # ... and, as a local edit, in the cache generation of the proxy used
+            tgt = handles[via][0] if via is not None else gen
+            if tgt in snaps:
+                apply_events(snaps[tgt], evs)
+            for e in evs:
+                for h, (hg, hp) in list(handles.items()):
                     if hp[:len(e[1])] == e[1] and (e[0] == "del" or isinstance(e[2], dict)):
                         del handles[h]
                     elif e[0] == "set" and isinstance(e[2], dict) and e[1][:len(hp)] == hp:
                         del handles[h]
-            info = {"via": via, "stale": via is not None and merges_since.get(via, 0) > 0,
-                    "dict_writes": dict_writes, "op": op}
-            same_out = out == want or ("keys" in out and "keys" in want and sorted(out["keys"]) == sorted(want["keys"]))
-            if not same_out:
+            info["diff"] = diff_paths(view, st)
+            info["dict_writes"] = list(dict_writes)
+            info["raw_writes"] = list(raw_writes)
+            info["lost_writes"] = list(lost_writes)
+            if not same_out(out, want):
                 return i, "outcome", info
             if view != st:
                 return i, "view", info
-            if evs:
-                for h in merges_since:
-                    merges_since[h] += 1
+            if evs and name != "rawset":
+                remerged()
             continue
-        if name in ("load_defaults", "load_overrides", "load_collection", "load_shell_env", "load_system",
-                    "load_user", "load_project", "load_runtime", "set_project_location", "set_runtime_path"):
+        if name.startswith("load_") or name.startswith("set_") or name == "merge":
             if "err" in out:
-                return i, "reload-error", {"dict_writes": dict_writes, "op": op}
+                return i, "reload-error", {"op": op, "dict_writes": list(dict_writes), "raw_writes": list(raw_writes),
+                                           "lost_writes": list(lost_writes), "diff": []}
             loads.append(op)
             env = step["env"]
             st = base_of(case, loads, env)
-            for e in journal:
-                if e[0] == "set":
-                    set_path(st, e[1], e[2])
-                else:
-                    del_path(st, e[1])
-            for h in merges_since:
-                merges_since[h] += 1
+            apply_events(st, journal)
+            remerged()
             if view != st:
-                return i, "view", {"via": None, "stale": False, "dict_writes": dict_writes, "op": op}
+                return i, "view", {"op": op, "via": None, "dict_writes": list(dict_writes),
+                                   "raw_writes": list(raw_writes), "lost_writes": list(lost_writes),
+                                   "diff": diff_paths(view, st)}
             continue
         if name == "clone":
-            handles, merges_since = {}, {}
+            handles = {}
             if view != st:
-                return i, "view", {"via": None, "stale": False, "dict_writes": dict_writes, "op": op}
+                return i, "view", {"op": op, "via": None, "dict_writes": list(dict_writes),
+                                   "raw_writes": list(raw_writes), "lost_writes": list(lost_writes),
+                                   "diff": diff_paths(view, st)}
     return None
+
+
+def under(p, q):
+    """path p lies at or below path q"""
+    return list(p[:len(q)]) == list(q)
 
 
 def levels_have_section_with_other_key(case, obs, path, value):
@@ -416,8 +541,11 @@ class C06(Prop):
             "consistent; histories of 1-25 operations over all mutators and readers, item and attribute "
             "syntax (mixed inside one navigation), through the root or through 1-3 held nested proxies "
             "fetched earlier (used after other writes/reloads re-merged the root), interleaved with "
-            "load_defaults/overrides/collection/shell_env and clone; the deep view is read through the "
-            "root after every operation.  Non-trivial = a deletion followed later by a reload or by a "
+            "load_defaults/overrides/collection/shell_env and clone; reads also through .get(k[,d]), items(), "
+            "values(), iter and ==; pop(k, None); update(mapping, **kw), update(<nested proxy>) and edits "
+            "through the raw dict handed out by get()/setdefault() at a low rate (known findings F-C06f/g/h); "
+            "list and tuple leaves in levels and writes; 3% of the cases walk into the F-C06b corner on "
+            "purpose; the deep view is read through the root after every operation.  Non-trivial = a deletion followed later by a reload or by a "
             "write at another depth, or a mutation through a held proxy that went stale")
     trusted_base = [
         "Coq 8.16.1 kernel + vm_compute (shard evaluation)",
@@ -534,7 +662,6 @@ class C06(Prop):
     def finding_of(self, case, obs):
         if "err" in obs["view0"]:
             return None
-        o2 = dict(obs, view0=obs["view0"])
         try:
             d = diagnose(case, {"trace": obs["trace"]})
         except Exception:
@@ -543,25 +670,48 @@ class C06(Prop):
             return None
         i, what, info = d
         op = info.get("op") or case["ops"][i]
+        out = obs["trace"][i]["out"]
+        diff = info.get("diff", [])
+        # F-C06g: update(<nested proxy>) iterates the proxy's KEYS as if they were pairs
+        if op[0] == "update_proxy" and what in ("outcome", "view"):
+            return "F-C06g"
+        # F-C06f: update(mapping, **kw) ignores the mapping: only keys of the mapping are wrong
+        if what == "view" and info.get("lost_writes") and diff and \
+                all(any(under(p, q) for q in info["lost_writes"]) for p in diff):
+            return "F-C06f"
         # F-C06b: write through a held proxy below a section deleted meanwhile -> TypeError in excise()
         if what == "outcome" and info.get("via") is not None and info.get("stale") \
-                and obs["trace"][i]["out"] == {"err": "TypeError"} and op[0] in ("set", "setdefault", "update"):
+                and out == {"err": "TypeError"} and op[0] in ("set", "setdefault", "update"):
             return "F-C06b"
-        # F-C06e: a held proxy that went stale decides by its old snapshot
-        if info.get("via") is not None and info.get("stale"):
-            return "F-C06e"
-        # F-C06a: a dict written onto a path where some level has a section with other keys
-        if what == "view":
-            for p, v in info.get("dict_writes", []):
-                if levels_have_section_with_other_key(case, obs, p, v) or self._mods_had(case, i, p, v):
-                    return "F-C06a"
+        # F-C06e: a held proxy that went stale decided by its own snapshot, not by the live view
+        if info.get("via") is not None and info.get("stale") and "snap" in info:
+            swant, sevs = info["snap"]
+            lwant, levs = expect_cached = (None, None)
+            if what == "outcome" and same_out(out, swant):
+                return "F-C06e"
+            if what == "view":
+                # the snapshot decided differently about editing (e.g. setdefault / pop / del)
+                live = expect(self._live_before(case, obs, i), op, out)
+                if same_out(out, swant) and [e[:2] for e in sevs] != [e[:2] for e in live[1]]:
+                    return "F-C06e"
+        # F-C06h: an edit made through the raw dict handed out by get()/setdefault() is lost at the next re-merge
+        if what == "view" and info.get("raw_writes") and diff and \
+                all(any(under(p, q) or under(q, p) for q in info["raw_writes"]) for p in diff):
+            return "F-C06h"
+        # F-C06a: a dict written onto a path where some level has a section with other keys:
+        # every disagreement lies under such a dict-written path
+        if what == "view" and diff:
+            bad = [pv for pv in info.get("dict_writes", [])
+                   if levels_have_section_with_other_key(case, obs, pv[0], pv[1])]
+            if bad and all(any(under(p, q[0]) for q in bad) for p in diff):
+                return "F-C06a"
         return None
 
-    def _mods_had(self, case, upto, path, value):
-        """an earlier write below ``path`` survives in the modifications level when
-        a dict is later written at ``path``?  No: _modify replaces the sub-dict.  Only
-        lower levels matter; kept for clarity."""
-        return False
+    def _live_before(self, case, obs, i):
+        """the nested-dict reference right before step i (views agree up to there)"""
+        if i == 0:
+            return gt.unjson(obs["view0"]["ok"])
+        return gt.unjson(obs["trace"][i - 1]["view"])
 
     def shrink_candidates(self, case):
         ops = case["ops"]
